@@ -1,5 +1,7 @@
 import ScrapliModel.Lemmas.Channel
 import ScrapliModel.Generated.Consts
+import ScrapliModel.Lemmas.GoSem
+import ScrapliModel.Generated.BodiesChannel
 /-!
 # C01 — CLI exchanges return exactly the device's output, aligned per command
 
@@ -208,5 +210,51 @@ theorem verbatim_echo_accepted (cmd pre post : Bytes) :
   · rw [roughlyContains_iff]
     exact ((List.sublist_append_right pre cmd).trans (List.sublist_append_left _ post))
   · exact isInfix_append cmd pre post
+
+/-! ## tie to the source: translated bodies = model (regenerated on every run) -/
+
+/-- the body of `getProcessReadBufSearchDepth` as the translator renders it from the current source
+(`Generated/BodiesChannel.lean`) computes `searchDepth` with the regenerated multiplier, for all
+(non-negative) depths and input lengths -/
+theorem generated_getProcessReadBufSearchDepth_eq (depth inputLen : Nat) :
+    Gen.Bodies.Channel.getProcessReadBufSearchDepth depth inputLen
+      = (searchDepth Gen.Channel.inputSearchDepthMultiplier depth inputLen : Nat) := by
+  unfold Gen.Bodies.Channel.getProcessReadBufSearchDepth searchDepth
+  simp only [gt_iff_lt, decide_eq_true_eq]
+  by_cases h : depth < Gen.Channel.inputSearchDepthMultiplier * inputLen
+  · have h' : (depth : Int) < (Gen.Channel.inputSearchDepthMultiplier : Int) * (inputLen : Int) := by
+      exact_mod_cast h
+    simp [h, h']
+  · have h' : ¬ (depth : Int) < (Gen.Channel.inputSearchDepthMultiplier : Int) * (inputLen : Int) := by
+      exact_mod_cast h
+    simp [h, h']
+
+/-- the body of `processReadBuf` as the translator renders it from the current source never indexes
+out of range (`some`) and computes exactly `window`, for every buffer and every depth ≥ 0 -/
+theorem generated_processReadBuf_eq (rb : Bytes) (d : Nat) :
+    Gen.Bodies.Channel.processReadBuf rb d = some (window rb d) := by
+  unfold Gen.Bodies.Channel.processReadBuf window
+  by_cases h : rb.length ≤ d
+  · have h' : Go.len rb ≤ (d : Int) := by simp only [Go.len]; exact_mod_cast h
+    simp [h, h']
+  · have h' : ¬ Go.len rb ≤ (d : Int) := by simp only [Go.len]; exact_mod_cast h
+    have hsub : Go.len rb - (d : Int) = ((rb.length - d : Nat) : Int) := by
+      simp only [Go.len]; omega
+    simp only [h, h', decide_false, Bool.false_eq_true, if_false, hsub, Go.slice_from]
+    have hok : Go.sliceOK (Go.len rb) ((rb.length - d : Nat) : Int) (Go.len rb) = true :=
+      Go.sliceOK_from rb _ (by omega)
+    simp only [hok, Bool.not_true, Bool.false_eq_true, if_false]
+    generalize rb.drop (rb.length - d) = prb
+    cases hi : indexLF prb with
+    | none => simp [Go.optIdx]
+    | some i =>
+      have hlt : i < prb.length := by
+        obtain ⟨rest, hr⟩ := indexLF_some _ _ hi
+        have := congrArg List.length hr
+        simp only [List.length_drop, List.length_cons] at this
+        omega
+      by_cases hpos : i > 0
+      · simp [Go.optIdx, hpos, Go.slice_from, Go.sliceOK_from prb i (by omega)]
+      · simp [Go.optIdx, hpos]
 
 end Scrapli.Chan.C01
